@@ -2,6 +2,7 @@ package sym
 
 import (
 	"go/types"
+	"strings"
 
 	"golang.org/x/tools/go/ssa"
 )
@@ -79,6 +80,15 @@ func init() {
 		d, _ := args[0].(Iface)
 		s, _ := args[1].(Iface)
 		const want = "*google.golang.org/genproto/googleapis/api/serviceconfig.Service"
+		if d.T != nil && s.T != nil && strings.HasSuffix(d.T.String(), ".fakeMsg") && strings.HasSuffix(s.T.String(), ".fakeMsg") {
+			// the harness's fake messages: reflective merge written against protoreflect (model_wkt.go);
+			// natively the real proto.Merge runs on them
+			f := m.Prog.Func("vfProtoMerge")
+			if f == nil {
+				m.unsupported("vfProtoMerge not defined by the harness")
+			}
+			return m.callFn(f, []Value{d, s}, nil)
+		}
 		if d.T == nil || s.T == nil || d.T.String() != want || s.T.String() != want {
 			m.unsupported("proto.Merge on " + m.show(d))
 		}
